@@ -158,7 +158,7 @@ def run_case(case):
             expect.append(('none' if ignore else 'gw', uid, i + 1, pdu[0]))
         else:
             expect.append(('none', uid, i + 1, None))
-    if framing == 'binary' and any(any(b in (0x7B, 0x7D) for b in fr[1:-1]) for fr in frames):
+    if framing == 'binary' and any(refframe.binary_fragile(fr) for fr in frames):
         return Outcome([], labels + ['excluded-binary-delimiter'], False)
     script = [(0, fr) for fr in frames]
     if case.get('cuts') and fe in frontends.STREAM:
